@@ -231,6 +231,46 @@ theorem multi_comment (body : Body) (sN R : Str) (line col f : Nat) (log : List 
     rfl
   rw [L.bind_ok hstep]
 
+/-- **a comment that ends at the END OF THE INPUT** (no line terminator), with any number of defective places: the reports of the
+    events, then the END token behind the comment -/
+theorem multi_comment_eof (body : Body) (sN : Str) (line col f : Nat) (log : List Report)
+    (hb : ∀ p ∈ body, (okUnits dia none p.1 = true ∧ p.1.all (fun x => !isEol x) = true) ∧ EvToEol dia line p.2)
+    (hN : okUnits dia none sN = true) (hNe : sN.all (fun x => !isEol x) = true) :
+    tokLoop dia (f + 2) true ⟨35 :: (body.inp ++ sN), line, col⟩ acceptAll log
+      = .ok (⟨.end_, [], line, body.col (col + 1) + colAdd sN⟩, ⟨[], line, body.col (col + 1) + colAdd sN⟩)
+          (body.reps line (col + 1) ++ log) := by
+  have hcls : classOf dia 35 = .hash := by cases dia <;> decide
+  have hm := multi (fun inp c acc (_ : Bool) lg => scanToEol dia inp line c false acc acceptAll lg)
+    (fun s => okUnits dia none s = true ∧ s.all (fun x => !isEol x) = true) (EvToEol dia line) line
+    (fun s R c acc _ lg hs => by
+      have := scanToEol_prefix dia R line acceptAll lg s none acc c hs.1 trivial hs.2
+      simpa using this)
+    (fun e R c acc _ lg he => he R c acc lg)
+    body (sN ++ []) (col + 1) [35] true log hb
+  have hscan : scanToEol dia (body.inp ++ sN) line (col + 1) false [35] acceptAll log
+      = .ok ⟨sN.reverse ++ (body.out.reverse ++ [35]), ⟨[], line, body.col (col + 1) + colAdd sN⟩⟩
+          (body.reps line (col + 1) ++ log) := by
+    have e : body.inp ++ sN = body.inp ++ (sN ++ []) := by simp
+    rw [e, hm]
+    have := scanToEol_prefix dia [] line acceptAll (body.reps line (col + 1) ++ log) sN none
+      (body.out.reverse ++ [35]) (body.col (col + 1)) hN trivial hNe
+    simp only [Option.isSome_none] at this
+    rw [this]
+    simp [scanToEol, leadAtEof, reportIf, fixAcc, L.bind, L.pure]
+  rw [tokLoop_cons]
+  have hstep : stepTok dia true 35 (body.inp ++ sN) line col acceptAll log
+      = .ok (.skip true ⟨[], line, body.col (col + 1) + colAdd sN⟩) (body.reps line (col + 1) ++ log) := by
+    unfold stepTok
+    simp only [bind_eq]
+    simp only [pure_eq]
+    have : (metaOfCls (classOf dia 35) != Meta.close && metaOfCls (classOf dia 35) != Meta.ws && !true) = false := by simp
+    rw [this, reportIf_false, L.pure_bind]
+    rw [if_neg (by rw [hcls]; decide), if_neg (by rw [hcls]; decide), if_pos hcls]
+    rw [L.bind_ok hscan]
+    rfl
+  rw [L.bind_ok hstep]
+  exact tokLoop_nil dia f true line _ acceptAll _
+
 /-- **a quoted string (CIF 2.0) with any number of defective places** -/
 theorem multi_quoted (q : Nat) (hq : q = 34 ∨ q = 39) (body : Body) (sN ctx : Str) (line col : Nat) (log : List Report)
     (hb : ∀ p ∈ body, (okUnits .cif2 none p.1 = true ∧ p.1.all (fun x => !isEol x) = true ∧ p.1.all (fun x => x != q) = true)
